@@ -30,6 +30,7 @@ EXTENDS Integers, Sequences, FiniteSets, TLC, Json
 
 CONSTANTS
     Shapes,       \* set of shapes (sequences of positive extents) for NewArray
+    Broadcast,    \* TRUE: zero steps over extents > 1 (broadcast views)
     StepVals,     \* step values offered to Slice/Apply/ApplySlice, e.g. {1,2}
     MaxSlices,    \* bound on Slice actions per behaviour
     MaxWrites,    \* bound on write actions per behaviour
@@ -76,7 +77,8 @@ SeqProd(ss) == IF ss = <<>> THEN {<<>>}
 \* per-dimension selections <<loc, len, step>> that stay inside an extent
 \* (a step of 0 is only meaningful for a single element: the generated wrappers write one state row with
 \* ApplySlice(loc, step = <<0, 1>>, row); offered when StepVals contains 0)
-DimSel(ext) == {<<l, n, s>> \in (0..(ext - 1)) \X (1..ext) \X StepVals : l + (n - 1) * s <= ext - 1 /\ (s = 0 => n = 1)}
+\* Broadcast = TRUE also offers step 0 over an extent > 1: every index of that dimension addresses element loc
+DimSel(ext) == {<<l, n, s>> \in (0..(ext - 1)) \X (1..ext) \X StepVals : l + (n - 1) * s <= ext - 1 /\ (s = 0 => (n = 1 \/ Broadcast))}
 
 Col(sel, j) == [d \in 1..Len(sel) |-> sel[d][j]]
 
@@ -330,7 +332,8 @@ ViewsOK == \A vi \in Newest :
               LET v == views[vi] IN
               /\ Len(v.offs) = Prod(v.shape)
               /\ \A k \in 1..Len(v.offs) : v.offs[k] \in 0..(Len(stores[v.sid]) - 1)
-              /\ \A j, k \in 1..Len(v.offs) : v.offs[j] = v.offs[k] => j = k
+              \* distinct indices address distinct cells -- unless a zero step folds a whole dimension onto one element
+              /\ (Broadcast \/ \A j, k \in 1..Len(v.offs) : v.offs[j] = v.offs[k] => j = k)
 
 \* Composition theorem (C01): the pointwise definition of nested slices coincides with the single
 \* affine map loc = a.loc + b.loc*a.step, step = a.step*b.step.
